@@ -89,6 +89,9 @@ func related(p, q []string) bool { // one is a prefix of the other
 
 type cfgT struct {
 	memChild, diskChild bool
+	// linkRoot: the disk filespace is created for a symbolic link that names its root directory
+	// (a deployment directory such as "current -> releases/7")
+	linkRoot bool
 }
 
 func runHistory(r *sup.CaseResult, gen *mfs.Gen, nops int, cfg cfgT, tmp string) (hist []mfs.Op) {
@@ -106,6 +109,11 @@ func runHistory(r *sup.CaseResult, gen *mfs.Gen, nops int, cfg cfgT, tmp string)
 		var parent filesystem.Filespace
 		if parent, err = diskfs.NewFilespace(base); err == nil {
 			dfs, err = parent.Filespace("jail")
+		}
+	} else if cfg.linkRoot {
+		link := filepath.Join(tmp, "current")
+		if err = os.Symlink(jail, link); err == nil {
+			dfs, err = diskfs.NewFilespace(link)
 		}
 	} else {
 		dfs, err = diskfs.NewFilespace(jail)
@@ -301,7 +309,7 @@ func main() {
 	sup.Main(sup.Prop{
 		ID:    "C02",
 		Level: "exploration",
-		Rule:  "one generated history is executed step by step on memfs, on diskfs (fresh temp dir) and on the tree model (which decides whether the stated preconditions hold); inside the preconditions: disk result = memory result and disk tree = memory tree after every step; outside: no panic and no change off the addressed paths on both backends; host sentinels next to/above the root are hashed after every step. Configurations root/root, child/child, mixed. distinct = distinct operation sequences; non-trivial = ≥1 successful mutation inside the preconditions",
+		Rule:  "one generated history is executed step by step on memfs, on diskfs (fresh temp dir; root, child view, or – in a third of the non-child runs – a root named by a symbolic link) and on the tree model (which decides whether the stated preconditions hold); inside the preconditions: disk result = memory result and disk tree = memory tree after every step; outside: no panic and no change off the addressed paths on both backends; host sentinels next to/above the root are hashed after every step. Configurations root/root, child/child, mixed. distinct = distinct operation sequences; non-trivial = ≥1 successful mutation inside the preconditions",
 		Assumptions: []string{
 			"preconditions as in the statement plus 'source has the kind the operation names'; removing the root, symlinks and permission bits are not generated; a directory copied to an absent path below itself (destination parent exists) meets the stated preconditions and is compared – the destination must receive a copy of the source as it was before the call; a directory copied onto itself is not generated",
 			"child views are requested only on existing directories; obtaining a view is not a compared operation",
@@ -317,6 +325,7 @@ func main() {
 					PrecondBias: 0.9, Weights: w, BigData: idx%9 == 0, NoDestInsideSrc: idx%4 != 2}
 				gen := &mfs.Gen{Cfg: cfg, R: rng}
 				conf := cfgT{memChild: idx%4 == 1 || idx%4 == 2, diskChild: idx%4 == 1 || idx%4 == 3}
+				conf.linkRoot = !conf.diskChild && idx%3 == 1
 				c.Case(idx, map[string]any{"hist": idx, "ops": nops, "cfg": fmt.Sprintf("%+v", conf)}, func(r *sup.CaseResult) {
 					tmp, err := os.MkdirTemp("", "c02-")
 					if err != nil {
@@ -327,6 +336,9 @@ func main() {
 					h := runHistory(r, gen, nops, conf, tmp)
 					r.Key = fmt.Sprintf("%+v|", conf) + strings.Join(mfs.HistString(h), ";")
 					r.AddObs(fmt.Sprintf("config_memChild=%v_diskChild=%v", conf.memChild, conf.diskChild), 1)
+					if conf.linkRoot {
+						r.AddObs("histories_on_a_disk_root_named_by_a_symbolic_link", 1)
+					}
 					if idx%200 == 0 {
 						hs := mfs.HistString(h)
 						if len(hs) > 10 {
